@@ -879,7 +879,7 @@ impl X {
             .map(|c| {
                 json!({
                     "name": QUALS[6 + c.name as usize % 2],
-                    "cols": c.cols.iter().map(|x| QCOLS[*x as usize % 5]).collect::<Vec<_>>(),
+                    "cols": c.effective_cols(),
                     "materialized": if self.d == Dialect::Postgres { c.materialized.map(|m| json!(m)).unwrap_or(J::Null) } else { J::Null },
                     "query": self.select(&c.query),
                 })
